@@ -1,8 +1,10 @@
 package sonic
 
 import (
+	"io"
 	"net"
 	"os"
+	"sync/atomic"
 	"syscall"
 
 	"github.com/talostrading/sonic/internal"
@@ -13,9 +15,10 @@ import (
 var _ Listener = &listener{}
 
 type listener struct {
-	ioc  *IO
-	slot internal.Slot
-	addr net.Addr
+	ioc    *IO
+	slot   internal.Slot
+	addr   net.Addr
+	closed uint32
 }
 
 // Listen creates a Listener that listens for new connections on the local address.
@@ -101,16 +104,25 @@ func (l *listener) accept() (Conn, error) {
 
 	localAddr, err := internal.SocketAddress(fd)
 	if err != nil {
+		_ = syscall.Close(fd)
 		return nil, err
+	}
+
+	if err := syscall.SetNonblock(fd, true); err != nil {
+		_ = syscall.Close(fd)
+		return nil, os.NewSyscallError("set_nonblock", err)
 	}
 
 	remoteAddr := internal.FromSockaddr(addr)
 
-	conn := newConn(l.ioc, fd, localAddr, remoteAddr)
-	return conn, syscall.SetNonblock(conn.RawFd(), true)
+	return newConn(l.ioc, fd, localAddr, remoteAddr), nil
 }
 
 func (l *listener) Close() error {
+	if !atomic.CompareAndSwapUint32(&l.closed, 0, 1) {
+		// Already closed: the descriptor number may belong to another object by now.
+		return io.EOF
+	}
 	_ = l.ioc.UnsetReadWrite(&l.slot)
 	l.ioc.Deregister(&l.slot)
 	return syscall.Close(l.slot.Fd)
